@@ -37,7 +37,7 @@ def run_case(job):
 
     def obs():
         while w.upwire:
-            events.append(WorkerSim.event_obs(w.upwire.popleft()))
+            events.append(w.event_obs(w.upwire.popleft()))
         return [w.queue_obs(), int(w.inter.torun._has_items_event.flag),
                 [[i, [] if j is None else [j]] for i, j in w.ran], list(events), int(w.exited)]
 
